@@ -2,9 +2,13 @@ package checks
 
 import (
 	"fmt"
+	"go/ast"
+	"go/parser"
+	"go/token"
 	"os"
 	"os/exec"
 	"path/filepath"
+	"strconv"
 	"strings"
 	"time"
 
@@ -115,7 +119,173 @@ func C13(c *Ctx) {
 		handle(rep, job.Name, func(v gosym.Violation) string { return kindsText(v) })
 		c.MarkDistinct(job.Name)
 	}
+	// edits and prefixes of well-formed files
+	src, err := editHarnessSource(c.Thorough())
+	var files []string
+	if err == nil {
+		files, err = editFiles(src)
+	}
+	extra := map[string]string{"Parser/zz_verif_files.go": src}
+	if err == nil {
+		eng, err = LoadRepoExtra(extra, "Parser")
+	}
+	if err != nil || len(files) < 3 {
+		c.Inconclusive("files of the edit harness cannot be read: %v", err)
+		return
+	}
+	c.Harnesses = append(c.Harnesses, "harness/Parser/zz_verif_files.go:VerifEdit", "harness/Parser/zz_verif_files.go:VerifFileParses")
+	type editT struct{ file, mode int }
+	var edits []editT
+	if c.Thorough() {
+		for f := range files {
+			for m := 0; m <= 6; m++ {
+				if f >= 3 && m >= 5 {
+					continue // the two example files: one-byte edits only
+				}
+				edits = append(edits, editT{f, m})
+			}
+		}
+		c.Bound("edit level: %d well-formed files (%d-%d bytes; three of the harness, examples/e.y and examples/ladd.y of the tree); at every position: the byte replaced by any ASCII byte, any ASCII byte inserted, the byte deleted, the file cut there, the file cut there and any ASCII byte appended; for the three harness files also two adjacent bytes replaced by any two ASCII bytes and the file cut with any two ASCII bytes appended; loop bound 4000 per loop", len(files), minLen(files), maxLen(files))
+	} else {
+		for f := range files {
+			for m := 0; m <= 4; m++ {
+				edits = append(edits, editT{f, m})
+			}
+		}
+		c.Bound("edit level: %d well-formed files (%d-%d bytes); at every position: the byte replaced by any ASCII byte, any ASCII byte inserted, the byte deleted, the file cut there, the file cut there and any ASCII byte appended; loop bound 4000 per loop", len(files), minLen(files), maxLen(files))
+	}
+	c.Outside = append(c.Outside, "edits of more than one byte and edits of other files than the "+strconv.Itoa(len(files))+" of the harness")
+	for f := range files {
+		job := SymJob{Name: fmt.Sprintf("file %d is well-formed", f), Eng: eng, PkgPath: RepoModule + "/Parser", Entry: "VerifFileParses",
+			Args: []int{f}, Replay: ReplaySpec{Kind: "repo", PkgDirs: []string{"Parser"}, Extra: extra}}
+		c.RunSym(job)
+	}
+	modeName := []string{"replace", "cut+append", "insert", "delete", "cut", "replace two", "cut+append two"}
+	for _, e := range edits {
+		e := e
+		job := SymJob{Name: fmt.Sprintf("edit file=%d %s", e.file, modeName[e.mode]), Eng: eng, PkgPath: RepoModule + "/Parser", Entry: "VerifEdit",
+			Args: []int{e.file, e.mode}, Replay: ReplaySpec{Kind: "repo", PkgDirs: []string{"Parser"}, Extra: extra}, unwindIsFinding: true}
+		rep := c.RunSym(job)
+		handle(rep, job.Name, func(v gosym.Violation) string { return editText(files[e.file], e.mode, v) })
+		c.MarkDistinct(job.Name)
+	}
 	c.NeedCovers("terminated", "parsed", "diagnostic")
+}
+
+// editHarnessSource returns the text of the edit harness; the thorough tier adds two example
+// grammars of the tree under test to its list of files (ASCII ones only).
+func editHarnessSource(thorough bool) (string, error) {
+	b, err := os.ReadFile(filepath.Join(VerifDir, "harness", "Parser", "zz_verif_files.go"))
+	if err != nil {
+		return "", err
+	}
+	src := string(b)
+	if !thorough {
+		return src, nil
+	}
+	var lits []string
+	for _, name := range []string{"e.y", "ladd.y"} {
+		t, err := os.ReadFile(filepath.Join(RepoDir, "examples", name))
+		if err != nil || len(t) > 1500 {
+			continue
+		}
+		ascii := true
+		for _, ch := range t {
+			if ch >= 0x80 {
+				ascii = false
+			}
+		}
+		if ascii {
+			lits = append(lits, "\t"+strconv.Quote(string(t))+",")
+		}
+	}
+	i := strings.Index(src, "\t// EXTRA-FILES")
+	if i < 0 {
+		return "", fmt.Errorf("marker EXTRA-FILES not found")
+	}
+	return src[:i] + strings.Join(lits, "\n") + "\n" + src[i:], nil
+}
+
+// editFiles reads the string literals of verifFiles from the harness source (one copy only).
+func editFiles(src string) ([]string, error) {
+	fset := token.NewFileSet()
+	f, err := parser.ParseFile(fset, "zz_verif_files.go", src, 0)
+	if err != nil {
+		return nil, err
+	}
+	var out []string
+	ast.Inspect(f, func(n ast.Node) bool {
+		vs, ok := n.(*ast.ValueSpec)
+		if !ok || len(vs.Names) != 1 || vs.Names[0].Name != "verifFiles" || len(vs.Values) != 1 {
+			return true
+		}
+		if cl, ok := vs.Values[0].(*ast.CompositeLit); ok {
+			for _, e := range cl.Elts {
+				if bl, ok := e.(*ast.BasicLit); ok {
+					if s, err := strconv.Unquote(bl.Value); err == nil {
+						out = append(out, s)
+					}
+				}
+			}
+		}
+		return false
+	})
+	return out, nil
+}
+
+func minLen(xs []string) int {
+	m := len(xs[0])
+	for _, x := range xs {
+		if len(x) < m {
+			m = len(x)
+		}
+	}
+	return m
+}
+
+func maxLen(xs []string) int {
+	m := 0
+	for _, x := range xs {
+		if len(x) > m {
+			m = len(x)
+		}
+	}
+	return m
+}
+
+// editText renders the input of VerifEdit from a model (position and byte).
+func editText(f string, mode int, v gosym.Violation) string {
+	pos := int(v.Model["pos!0"])
+	b := string([]byte{byte(v.Model["b!0"])})
+	if mode >= 5 {
+		b += string([]byte{byte(v.Model["b!1"])})
+	}
+	if pos < 0 || pos > len(f) {
+		return f
+	}
+	switch mode {
+	case 0:
+		if pos < len(f) {
+			return f[:pos] + b + f[pos+1:]
+		}
+	case 1:
+		return f[:pos] + b
+	case 2:
+		return f[:pos] + b + f[pos:]
+	case 3:
+		if pos < len(f) {
+			return f[:pos] + f[pos+1:]
+		}
+	case 4:
+		return f[:pos]
+	case 5:
+		if pos+2 <= len(f) {
+			return f[:pos] + b + f[pos+2:]
+		}
+	case 6:
+		return f[:pos] + b
+	}
+	return f
 }
 
 var seedTexts = []string{"", "%union", "%{", "/*", "//", "'", "\"", "{", "$", "%token <", "%token", "%start", "%type", "%left", "%%", "%token A\n%%\nA:", "%%\nA : B %prec", "%token <t> A 'c'\n%type <t> B\n%start B\n%%\nB: A {x} |",
